@@ -1,0 +1,12 @@
+//go:build !verif
+
+package comet
+
+// Instrumentation points used by the verification harness (build tag "verif").
+// Without the tag they are empty and inlined away.
+
+func verifHook(point string, args ...any) {}
+
+func verifFault(point string) error { return nil }
+
+func verifLevel() (int, bool) { return 0, false }
